@@ -66,6 +66,12 @@ PoolSets ==
       [] Family = "C08d2big" -> [i \in 1 .. 5 |-> BinOp(OpSeq[i], NumBinary(ArithLeaves, ArithLeaves), NumLeavesSmall)]
                                \o [i \in 1 .. 5 |-> BinOp(OpSeq[i], NumLeavesSmall, NumBinary(ArithLeaves, ArithLeaves))]
                                \o <<NumUnary(NumBinary(ArithLeaves, ArithLeaves)), NumBinary(NumUnary(ArithLeaves), NumLeavesSmall)>>
+      [] Family = "C11pairs" -> <<PoolC11pairs(ElemNames)>>
+      [] Family = "C11more"  -> <<PoolC11nested(ElemNames), PoolC11seq(ElemNames)>>
+      [] Family = "C13wrap" -> [i \in 1 .. 12 |-> PoolC13wrap({SetToSeq(AllAxes)[i]}, TestsA)
+                                                  \cup UNION {Wrappers(Path(ab, <<Step(ax, NTAny, <<>>), Step(SetToSeq(AllAxes)[i], nt, <<>>)>>)) :
+                                                              ab \in BOOLEAN, ax \in AllAxes \ {SetToSeq(AllAxes)[i]}, nt \in TestsA}]
+      [] Family = "C13wrapPred" -> <<PoolC13wrapPred(Atoms1({"child", "ancestor", "following", "preceding-sibling"}, {NTName("a")}))>>
       [] Family = "C09two"  -> PoolC09twoSets
       [] Family = "C09one"  -> <<PoolC09one>>
       [] Family = "C09sub"  -> <<PoolC09sub>>
